@@ -16,6 +16,7 @@ import (
 	"github.com/algorand/msgp/msgp"
 	"pgregory.net/rapid"
 
+	"github.com/algorand/go-algorand/config"
 	"github.com/algorand/go-algorand/data/basics"
 	"github.com/algorand/go-algorand/data/transactions"
 	"github.com/algorand/go-algorand/data/txntest"
@@ -773,4 +774,204 @@ func TestVerif_C08_RegressMax0(t *testing.T) {
 			vk.Sample(onDiskOnly, map[string]any{"history": w.History, "dbRound": w.Node.DBRound(), "boxRound": boxRound})
 		}
 	})
+}
+
+// ---------------------------------------------------------------------------------------------------------------
+// Resource churn across flushes (LRU caches enabled).
+//
+// A resource (asset holding, app local state, box, whole account) is created, deleted and re-created with each of the
+// three events flushed to the tracker DB by a SEPARATE commit, and is looked up right after every flush, before it is
+// touched again. This is the path where postCommit feeds the LRU caches with the rows the DB writer reports
+// (accountsNewRoundImpl -> updatedPersistedResources -> lruResources.write, which keeps the entry with the larger
+// Round): a "deleted" marker cached by the second flush must be replaced by the re-created row of the third one.
+// Random histories rarely line the three events up with three commits on an LRU-enabled node, so it is scripted.
+
+type c08Churn struct {
+	c       *c08Checker
+	w       *engcWorld
+	creator basics.Address
+	holder  basics.Address
+	fresh   basics.Address
+	asset   basics.AssetIndex
+	app     basics.AppIndex
+	targets []c08Entity
+}
+
+// block builds one block from scripted single-transaction groups plus optional random filler (payments only profile).
+func (ch *c08Churn) block(t *rapid.T, what string, txs ...*txntest.Txn) {
+	b := ch.w.BeginBlock(t)
+	for _, tx := range txs {
+		if err := b.Submit([]string{"churn:" + what}, tx); err != nil {
+			t.Fatalf("ENGINE: scripted churn transaction (%s, %v from %s) rejected in round %d: %v", what, tx.Type, engcShort(tx.Sender), b.Round, err)
+		}
+	}
+	ch.filler(t, b)
+	b.Finish(t)
+}
+
+// filler adds 0-2 small payments between accounts that play no role in the script (random traffic from the generator
+// could drain or close the scripted accounts).
+func (ch *c08Churn) filler(t *rapid.T, b *engcBlockBuilder) {
+	var others []basics.Address
+	for _, u := range ch.w.Users {
+		if u != ch.creator && u != ch.holder {
+			others = append(others, u)
+		}
+	}
+	for i, k := 0, rapid.IntRange(0, 2).Draw(t, "filler"); i < k && len(others) > 0; i++ {
+		snd := others[rapid.IntRange(0, len(others)-1).Draw(t, "fillerSnd")]
+		rcv := others[rapid.IntRange(0, len(others)-1).Draw(t, "fillerRcv")]
+		if b.Gen.spendable(snd) < 10_000 {
+			continue
+		}
+		_ = b.Submit([]string{"pay"}, &txntest.Txn{Type: protocol.PaymentTx, Sender: snd, Receiver: rcv, Amount: rapid.Uint64Range(0, 5_000).Draw(t, "fillerAmt")})
+	}
+}
+
+// flush adds blocks until the event of round `upTo` is in the tracker DB of every node (MaxAcctLookback rounds stay in
+// memory), each time through the production commit path.
+func (ch *c08Churn) flush(t *rapid.T, upTo basics.Round) {
+	for _, n := range ch.w.Nodes() {
+		for tries := 0; n.DBRound() < upTo; tries++ {
+			if tries > 40 {
+				t.Fatalf("ENGINE: %s does not flush round %d (dbRound %d, latest %d, lookback %d)", n.Name, upTo, n.DBRound(), ch.w.Model.Latest(), n.Cfg.MaxAcctLookback)
+			}
+			if ch.w.Model.Latest() < upTo+basics.Round(n.Cfg.MaxAcctLookback) || tries > 0 {
+				b := ch.w.BeginBlock(t)
+				ch.filler(t, b)
+				b.Finish(t)
+			}
+			n.OpCommit()
+		}
+	}
+	ch.c.vk.Label("churn:flush")
+}
+
+// ask queries every churn target at every round of the served window (and just outside) on every node.
+func (ch *c08Churn) ask(t *rapid.T) {
+	for _, n := range ch.w.Nodes() {
+		for _, r := range ch.c.rounds(n) {
+			for _, e := range ch.targets {
+				ch.c.query(t, n, e, r)
+			}
+		}
+	}
+}
+
+func c08ChurnRun(tb *testing.T, t *rapid.T, vk *vkCtx) {
+	opts := engcOpts{Label: vk.Label, Profile: "pay", ForceMem: true, Shadow: rapid.IntRange(0, 2).Draw(t, "shadow") == 0,
+		CfgHook: func(name string, cfg *config.Local) {
+			if name == "node" {
+				cfg.DisableLedgerLRUCache = false // the subject of this unit
+			}
+		}}
+	w := engcNewWorld(tb, t, opts)
+	defer w.Close()
+	c := &c08Checker{w: w, vk: vk}
+	ch := &c08Churn{c: c, w: w}
+
+	// the two richest users play creator and holder
+	tip := w.Model.Tip()
+	users := append([]basics.Address{}, w.Users...)
+	sort.SliceStable(users, func(i, j int) bool {
+		return tip.Acct(users[i]).Data.MicroAlgos.Raw > tip.Acct(users[j]).Data.MicroAlgos.Raw
+	})
+	ch.creator, ch.holder, ch.fresh = users[0], users[1], w.Fresh[0]
+	if tip.Acct(ch.holder).Data.MicroAlgos.Raw < 20_000_000 {
+		// top the holder up from the creator
+		ch.block(t, "fund-holder", &txntest.Txn{Type: protocol.PaymentTx, Sender: ch.creator, Receiver: ch.holder, Amount: 20_000_000})
+	}
+	for _, u := range []basics.Address{ch.creator, ch.holder} { // scripted senders must be able to authorize themselves
+		if st := w.Model.Tip().Acct(u).Data; !st.AuthAddr.IsZero() {
+			t.Fatalf("ENGINE: genesis account is rekeyed")
+		}
+	}
+	a, _, cl := engcPrograms()
+	ch.block(t, "setup",
+		&txntest.Txn{Type: protocol.AssetConfigTx, Sender: ch.creator, AssetParams: basics.AssetParams{Total: 1000, UnitName: "ch", AssetName: "churn"}},
+		&txntest.Txn{Type: protocol.ApplicationCallTx, Sender: ch.creator, ApprovalProgram: a, ClearStateProgram: cl,
+			GlobalStateSchema: basics.StateSchema{NumByteSlice: 1}, LocalStateSchema: basics.StateSchema{NumByteSlice: 1}})
+	for _, id := range w.Model.Tip().CreatableIDs(basics.AssetCreatable) {
+		ch.asset = basics.AssetIndex(id)
+	}
+	for _, id := range w.Model.Tip().CreatableIDs(basics.AppCreatable) {
+		ch.app = basics.AppIndex(id)
+	}
+	if ch.asset == 0 || ch.app == 0 {
+		t.Fatalf("ENGINE: churn setup did not create asset/app")
+	}
+	ch.block(t, "fund-app", &txntest.Txn{Type: protocol.PaymentTx, Sender: ch.creator, Receiver: ch.app.Address(), Amount: 2_000_000})
+	boxKey := engcBoxKey(ch.app, "x")
+	ch.targets = []c08Entity{
+		{kind: "asset", addr: ch.holder, cidx: basics.CreatableIndex(ch.asset), ctype: basics.AssetCreatable},
+		{kind: "asset", addr: ch.creator, cidx: basics.CreatableIndex(ch.asset), ctype: basics.AssetCreatable},
+		{kind: "app", addr: ch.holder, cidx: basics.CreatableIndex(ch.app), ctype: basics.AppCreatable},
+		{kind: "app", addr: ch.creator, cidx: basics.CreatableIndex(ch.app), ctype: basics.AppCreatable},
+		{kind: "kv", key: boxKey}, {kind: "prefix", key: engcBoxKey(ch.app, "")}, {kind: "prefix", key: engcBoxKey(ch.app, ""), max: 1},
+		{kind: "acct", addr: ch.holder}, {kind: "acct", addr: ch.fresh}, {kind: "acct", addr: ch.app.Address()},
+	}
+	ch.flush(t, w.Model.Latest())
+	ch.ask(t)
+
+	create := func(size uint64) []*txntest.Txn {
+		return []*txntest.Txn{
+			{Type: protocol.AssetTransferTx, Sender: ch.holder, XferAsset: ch.asset, AssetReceiver: ch.holder},
+			{Type: protocol.ApplicationCallTx, Sender: ch.holder, ApplicationID: ch.app, OnCompletion: transactions.OptInOC},
+			{Type: protocol.ApplicationCallTx, Sender: ch.creator, ApplicationID: ch.app,
+				ApplicationArgs: [][]byte{[]byte("bcreate"), []byte("x"), engcItob(size)}, Boxes: []transactions.BoxRef{{Index: 0, Name: []byte("x")}}},
+			{Type: protocol.PaymentTx, Sender: ch.creator, Receiver: ch.fresh, Amount: 1_000_000},
+		}
+	}
+	remove := func() []*txntest.Txn {
+		return []*txntest.Txn{
+			{Type: protocol.AssetTransferTx, Sender: ch.holder, XferAsset: ch.asset, AssetReceiver: ch.creator, AssetCloseTo: ch.creator},
+			{Type: protocol.ApplicationCallTx, Sender: ch.holder, ApplicationID: ch.app, OnCompletion: transactions.CloseOutOC},
+			{Type: protocol.ApplicationCallTx, Sender: ch.creator, ApplicationID: ch.app,
+				ApplicationArgs: [][]byte{[]byte("bdel"), []byte("x")}, Boxes: []transactions.BoxRef{{Index: 0, Name: []byte("x")}}},
+			{Type: protocol.PaymentTx, Sender: ch.fresh, Receiver: ch.creator, CloseRemainderTo: ch.creator},
+		}
+	}
+	use := func() []*txntest.Txn { // touch the re-created resources: the holder receives units, writes local state
+		return []*txntest.Txn{
+			{Type: protocol.AssetTransferTx, Sender: ch.creator, XferAsset: ch.asset, AssetReceiver: ch.holder, AssetAmount: 3},
+			{Type: protocol.ApplicationCallTx, Sender: ch.holder, ApplicationID: ch.app, ApplicationArgs: [][]byte{[]byte("lput"), []byte("a"), []byte("v")}},
+		}
+	}
+	cycles := rapid.IntRange(1, 2).Draw(t, "cycles")
+	lookBetween := rapid.IntRange(0, 4).Draw(t, "lookBetween") != 0
+	step := func(what string, txs []*txntest.Txn) {
+		ch.block(t, what, txs...)
+		ev := w.Model.Latest()
+		if lookBetween {
+			ch.ask(t) // still in memory
+		}
+		ch.flush(t, ev)
+		ch.ask(t) // right after the flush, before anything touches the resources again
+		c.compareNodes(t, 6)
+	}
+	step("create", create(8))
+	for i := 0; i < cycles; i++ {
+		step("delete", remove())
+		step("recreate", create(uint64(4+i)))
+		vk.Label("churn:create-delete-recreate-in-3-commits")
+		if rapid.Bool().Draw(t, "useAfter") {
+			step("use", use())
+		}
+	}
+	c.sweep(t)
+	vk.Case(true, strings.Join(w.History, "|"))
+	vk.Labelf("churn:lookback:%d", w.Node.Cfg.MaxAcctLookback)
+	vk.Add("queries_in_window", int64(c.st.queries))
+	vk.Add("queries_crossing_split", int64(c.st.crossed))
+	if vk.WantSample(true) {
+		vk.Sample(true, map[string]any{"history": w.History, "cycles": cycles, "queries": c.st.queries})
+	}
+}
+
+func TestVerif_C08_Churn(t *testing.T) {
+	vk := vkBegin(t, "C08")
+	vk.Rule("scripted resource churn on a node with the LRU caches enabled: an asset holding, an app local state, a box and a whole account are created, deleted and re-created (1-2 cycles), " +
+		"each event flushed by its own tracker commit (filler blocks respect MaxAcctLookback), and every affected entity is looked up at every served round before and right after every flush, " +
+		"on the node and (1/3) on an LRU-less shadow ledger; drawn: world, lookback, filler payments, lookups between flushes, cycles. Non-trivial: every case (three separate commits reached). Distinct: by trace.")
+	rapid.Check(t, func(rt *rapid.T) { c08ChurnRun(t, rt, vk) })
 }
